@@ -46,6 +46,15 @@ def build(tier, seed, pid):
             m = gl.conforming_metrics(t["crystal_system"], t["cell_choice"], rng, 1)[0]
             K, _ = gl.shell_for(m, 1500 if tier == "quick" else 3000, rng)
             inst.append({"t": i + 1, "met": m, "K": K, "Kmin": 0, "deep": 1})
+    # needle cells: one reciprocal axis 130 times shorter than the others, so that only the 00l row lies in the shell and l runs to +-130
+    # (a 300 A axis at ordinary resolution): indices beyond a signed byte
+    # (their numbers do not fit TLC's 32-bit products; they are checked by needle_check below, where the allowed set is simply 00l)
+    if pid == "C06":
+        # one shell with more than 4096 families (P-1, about 8600 lattice points): lists longer than any fixed-size buffer
+        i2 = [i for i, t in enumerate(tabs) if t["no"] == 2][0]
+        m = gl.conforming_metrics("triclinic", "standard", rng, 1)[0]
+        K, _ = gl.shell_for(m, 8700 if tier == "quick" else 20000, rng)
+        inst.append({"t": i2 + 1, "met": m, "K": K, "Kmin": 0, "huge": 1})
     pairs = []
     if pid == "C05":
         for (a, b) in rcentred_instances(tabs, rng, 1 if tier == "quick" else 4):
@@ -63,6 +72,50 @@ def build(tier, seed, pid):
     if len(by) != len(inst) or any(len(v) != 2 for v in by.values()):
         raise common.MachineryError("expected 2 terminal states per instance (%d), got %d groups" % (len(inst), len(by)))
     return wd, tabs, inst, r, by, rng, pairs
+
+
+def needle_check(v, tabs, rng, pid):
+    """Cells with one reciprocal axis 130 times shorter than the other two (a 300 A axis at ordinary resolution): only the row 00l lies in
+    the shell, l runs to +-130 - beyond a signed byte.  For the five primitive groups used (P1, P-1, P222, Pmmm, P4) nothing is extinct, so the
+    allowed set is {(0,0,l) : Kmin < l^2 <= K} and every Laue family is {(0,0,l), (0,0,-l)}; no model is needed to say so, and the numbers
+    (17000^2 . 130^2) do not fit TLC's integers."""
+    import numpy as np
+    n = 0
+    for t in tabs:
+        if (t["no"], t["setting"]) not in ((1, "standard"), (2, "standard"), (16, "standard"), (75, "standard"), (47, "standard")):
+            continue
+        met = [17000, 17000, 1, 0, 0, 0]
+        K, Kmin = 16950, rng.choice([0, 15000])
+        c = 0.01 * rng.uniform(0.5, 2.0) / 1000.0
+        cell = gl.cell_from_recip_metric(met, c)
+        smin, smax = gl.bounds(K, Kmin, c)
+        ls = [l for l in range(1, 131) if Kmin < l * l <= K]
+        want_all = sorted([(0, 0, l) for l in ls] + [(0, 0, -l) for l in ls])
+        for modname in ("tools", "laue"):
+            for func in (("genhkl_all",) if pid == "C05" else ("genhkl_unique", "genhkl_all")):
+                res = gl.call_gen((modname, func, list(cell), smin, smax, dict(sgno=t["no"], cell_choice=t["setting"]), rng.randrange(1 << 30), True))
+                n += 1
+                v.case(("needle", t["no"], modname, func))
+                tag = "%s, Sg%d, needle cell c* = a*/130, %d < l^2 <= %d, xfab.%s" % (func, t["no"], Kmin, K, modname)
+                if isinstance(res, str):
+                    v.violation("%s raised: %s" % (tag, res), {"sg": t["no"], "cell": cell})
+                    continue
+                rows = gl.rows_to_int(res)
+                if rows is None:
+                    v.violation("%s returned non-integer indices" % tag, {"sg": t["no"], "cell": cell})
+                    continue
+                if func == "genhkl_all":
+                    if sorted(rows) != want_all:
+                        miss = sorted(set(want_all) - set(rows))[:4]
+                        extra = sorted(set(rows) - set(want_all))[:4]
+                        v.violation("%s: %d rows, the shell holds %d reflections 00l; missing %s, extra %s" % (tag, len(rows), len(want_all), miss, extra),
+                                    {"sg": t["no"], "cell": cell})
+                else:
+                    ok = len(rows) == len(ls) and all(r[0] == 0 and r[1] == 0 for r in rows) and [abs(r[2]) for r in rows] == ls
+                    if not ok:
+                        v.violation("%s: rows %s ... are not one of (0,0,+-l) for each l = %d..%d in order" % (tag, rows[:3], ls[0], ls[-1]),
+                                    {"sg": t["no"], "cell": cell})
+    return n
 
 
 def tset(lst):
@@ -109,7 +162,7 @@ def run(tier, seed):
         t = tabs[I["t"] - 1]
         c = 0.01 * rng.uniform(0.5, 2.0)
         cell = gl.cell_from_recip_metric(I["met"], c)
-        smin, smax = gl.bounds(I["K"], I["Kmin"], c, tight=0 if (I.get("pseudo") or I.get("long")) else i % 5)
+        smin, smax = gl.bounds(I["K"], I["Kmin"], c, tight=0 if (I.get("pseudo") or I.get("long") or I.get("needle") or I.get("huge")) else i % 5)
         if I["Kmin"] == 0 and i % 3 == 0:
             smin = -0.1 * (i % 2)          # a lower bound of exactly 0 or below 0 means "no lower bound": 000 is never a reflection
         variants = [("tools", dict(sgno=t["no"], cell_choice=t["setting"]), rng.randrange(1 << 30)),
@@ -182,6 +235,7 @@ def run(tier, seed):
            "rule": "instance = (setting, conforming integer reciprocal metric, shell); every setting x %d metrics; "
                    "each replayed by number and by name, tools and laue, under distinct numpy seeds; "
                    "non-trivial = non-empty allowed set" % (2 if tier == "quick" else 5)}
+    cov["needle_cell_calls"] = needle_check(v, tabs, rng, "C05")
     return v.finish("model_checking", cov, ASSUME)
 
 
